@@ -570,7 +570,11 @@ class GroupBy:
             for p, k in zip(self._group_key_pointers, self._group_ikey.chunks):
                 k = k.to_numpy()
                 # map chunk-local codes to global ones; the null code stays null
-                chunks.append(np.where(k < 0, -1, p[k]))
+                # (a chunk holding only null keys has an empty pointer table)
+                unified = np.full(len(k), -1, dtype=np.int64)
+                has_key = k >= 0
+                unified[has_key] = p[k[has_key]]
+                chunks.append(unified)
             self._group_key_pointers = None
         elif keep_chunked:
             # no pointers to unify, but we want to keep chunked so do nothing
